@@ -5,23 +5,23 @@
 set -u
 WT=$1; PATCH=$(readlink -f $2); DEMO=$3; SID=$4; PROP=$5; shift 5
 cd $WT || exit 2
-cp $PATCH /tmp/_seed_patch.diff || exit 2
+cp $PATCH /tmp/_seed_patch_$SID.diff || exit 2
 git checkout -q -- python
 git checkout -q --detach $(git -C /repo rev-parse HEAD) || { echo "cannot move worktree to HEAD"; exit 2; }
-PYTHONPATH=$WT/python timeout 600 /venv/bin/python -W ignore $DEMO > /tmp/_seed_demo_clean.log 2>&1; RC_CLEAN=$?
-git apply /tmp/_seed_patch.diff || { echo "patch does not apply"; exit 2; }
-PYTHONPATH=$WT/python timeout 600 /venv/bin/python -W ignore $DEMO > /tmp/_seed_demo_patched.log 2>&1; RC_PATCHED=$?
+PYTHONPATH=$WT/python timeout 600 /venv/bin/python -W ignore $DEMO > /tmp/_seed_demo_clean_$SID.log 2>&1; RC_CLEAN=$?
+git apply /tmp/_seed_patch_$SID.diff || { echo "patch does not apply"; exit 2; }
+PYTHONPATH=$WT/python timeout 600 /venv/bin/python -W ignore $DEMO > /tmp/_seed_demo_patched_$SID.log 2>&1; RC_PATCHED=$?
 echo "demo: clean rc=$RC_CLEAN patched rc=$RC_PATCHED"
 TESTS_OK=skipped
 if [ $# -gt 0 ]; then
-  PYTHONPATH=$WT/python timeout 3000 /venv/bin/python -m pytest -q -p no:cacheprovider --timeout=900 "$@" > /tmp/_seed_tests.log 2>&1; TRC=$?
-  tail -1 /tmp/_seed_tests.log; TESTS_OK=$TRC
+  PYTHONPATH=$WT/python timeout 3000 /venv/bin/python -m pytest -q -p no:cacheprovider --timeout=900 "$@" > /tmp/_seed_tests_$SID.log 2>&1; TRC=$?
+  tail -1 /tmp/_seed_tests_$SID.log; TESTS_OK=$TRC
 fi
 mkdir -p /verif/seeded/$SID
-cp /tmp/_seed_patch.diff /verif/seeded/$SID/patch.diff
+cp /tmp/_seed_patch_$SID.diff /verif/seeded/$SID/patch.diff
 cp $DEMO /verif/seeded/$SID/
-cp /verif/evidence/$PROP.json /tmp/_ev_backup_$PROP.json 2>/dev/null; cd /verif && PYTHONPATH=$WT/python timeout 3000 ./check $PROP --tier quick > /tmp/_seed_check.log 2>&1; CRC=$?
-grep -E "^VIOLATION|tier=" /tmp/_seed_check.log | head -3
+cp /verif/evidence/$PROP.json /tmp/_ev_backup_$PROP.json 2>/dev/null; cd /verif && PYTHONPATH=$WT/python timeout 3000 ./check $PROP --tier quick > /tmp/_seed_check_$SID.log 2>&1; CRC=$?
+grep -E "^VIOLATION|tier=" /tmp/_seed_check_$SID.log | head -3
 echo "check rc=$CRC"; cp /tmp/_ev_backup_$PROP.json /verif/evidence/$PROP.json 2>/dev/null
 cat > /verif/seeded/$SID/confirm.json <<J
 {"seed": "$SID", "property": "$PROP", "demo_rc_clean": $RC_CLEAN, "demo_rc_patched": $RC_PATCHED, "repo_tests": "$*", "repo_tests_rc": "$TESTS_OK", "quick_check_rc_on_patched_tree": $CRC}
